@@ -334,6 +334,7 @@ var rsKinds = []string{
 	"on-forged-repeat",   // the same with ONE attacker precommit repeated in every slot
 	"on-genuine-repeat",  // genuine predecessor, LastCommit is one genuine precommit repeated in every slot
 	"on-forged-prevotes", // forged predecessor, "LastCommit" = the validly signed PREVOTES of all validators for it (a block that had a polka in some round and was not committed)
+	"on-forged-relabel",  // forged predecessor, LastCommit = the genuine precommits (for the genuine predecessor) under a Commit.BlockID rewritten to the forged block (that field is covered by no signature and no hash)
 }
 
 func rsGenuineKind(kind string) bool { return kind == "genuine" || kind == "other-height" }
@@ -459,6 +460,21 @@ func (c *rsChain) variant(kind string, g int64, arg int, attackers []int) *gtype
 				}
 			}
 		}
+		rehashCommit()
+	case "on-forged-relabel":
+		if g < 2 || src.LastCommit == nil {
+			return nil
+		}
+		prevID := rsBlockID(c.forgedTxs(g - 1))
+		lc := &gtypes.Commit{BlockID: prevID, Precommits: make([]*gtypes.Vote, len(src.LastCommit.Precommits))}
+		for i, pc := range src.LastCommit.Precommits {
+			if pc != nil {
+				cp := *pc
+				lc.Precommits[i] = &cp
+			}
+		}
+		b.LastBlockID = prevID
+		b.LastCommit = lc
 		rehashCommit()
 	case "on-forged", "on-forged-repeat", "on-genuine-repeat", "on-forged-prevotes":
 		if g < 2 {
